@@ -9,3 +9,42 @@ def pmap(fn, jobs, workers=None):
     ctx = mp.get_context('fork')
     with ctx.Pool(workers) as pool:
         return pool.map(fn, jobs, chunksize=1)
+
+
+def with_deadline(fn, arg, timeout=20):
+    """run fn(arg) in a forked child; -> ('ok', JSON-able result) | ('timeout', None) | ('died', exit code).  A call that never
+    returns cannot be interrupted inside the interpreter: the child is killed."""
+    import json, select, signal, time
+    r, w = os.pipe()
+    pid = os.fork()
+    if pid == 0:
+        os.close(r)
+        try:
+            data = json.dumps(fn(arg)).encode()
+            os.write(w, data)
+        finally:
+            os._exit(0)
+    os.close(w)
+    chunks, deadline, hung = [], time.monotonic() + timeout, False
+    while True:
+        left = deadline - time.monotonic()
+        ready = select.select([r], [], [], max(0.0, left))[0] if left > 0 else []
+        if not ready:
+            hung = True
+            try:
+                os.kill(pid, signal.SIGKILL)
+            except ProcessLookupError:
+                pass
+            break
+        data = os.read(r, 1 << 16)
+        if not data:
+            break
+        chunks.append(data)
+    os.close(r)
+    _, status = os.waitpid(pid, 0)
+    if hung:
+        return 'timeout', None
+    raw = b''.join(chunks)
+    if not raw:
+        return 'died', os.waitstatus_to_exitcode(status)
+    return 'ok', json.loads(raw.decode())
